@@ -80,7 +80,7 @@ class Result:
 
 
 def _jsonable(o, depth=0):
-    if depth > 8:
+    if depth > 60:
         return repr(o)[:200]
     if isinstance(o, (str, int, float, bool)) or o is None:
         if isinstance(o, float) and (o != o or o in (float("inf"), float("-inf"))):
